@@ -142,8 +142,22 @@ fn random_special(src: &mut Src, obs: &mut Obs) -> Res {
     let mut cfg = GenCfg::plain();
     cfg.special_keys = true;
     cfg.free_escapes = true;
-    cfg.special_literals = true;
     random(src, obs, &cfg)
+}
+
+/// explicit case {"query": text, "doc": json}
+pub fn parse_direct(case: &Value) -> Result<(Query, String, J), Failure> {
+    let text = case["query"].as_str().unwrap_or("").to_string();
+    let doc = J::from_value(&case["doc"]);
+    match crate::recog::parse_ast(&text) {
+        Some(q) => Ok((q, text, doc)),
+        None => Err(Failure::new("direct case: the query text is not in the recogniser's language", case.clone())),
+    }
+}
+
+fn direct(case: &Value, obs: &mut Obs) -> Res {
+    let (q, text, doc) = parse_direct(case)?;
+    check(&q, &text, &doc, true, obs)
 }
 
 pub fn prop() -> Prop {
@@ -176,7 +190,7 @@ pub fn prop() -> Prop {
                 },
             },
         ],
-        direct: None,
-        selftest: None,
+        direct: Some(direct),
+        selftest: Some(crate::rfc::selftest),
     }
 }
